@@ -58,9 +58,23 @@ type Config struct {
 	IntervalMs    int   `json:"interval_ms"` // push interval; 0 = one hour (timer never fires)
 	MaxQueueSize  int64 `json:"max_queue"`   // 0 = unlimited
 	Workers       int   `json:"workers"`     // parallel insert workers per service (>=1)
-	RetryAttempts int   `json:"retries"`     // SYSTEM_SETTINGS.RetryAttempts (>=1)
-	RetryTimeoutS int   `json:"retry_s"`     // SYSTEM_SETTINGS.RetryTimeoutS
-	Bernstein     bool  `json:"bernstein"`   // fingerprint type
+	RetryAttempts int   `json:"retries"`     // SYSTEM_SETTINGS.RetryAttempts; 0 = default of the harness (1)
+	// ZeroAttempts configures retry_attempts = 0 (an operator asking for "no retries"); it
+	// wins over RetryAttempts. A separate flag because 0 in RetryAttempts means "default".
+	ZeroAttempts  bool `json:"retry_attempts_zero,omitempty"`
+	RetryTimeoutS int  `json:"retry_s"`   // SYSTEM_SETTINGS.RetryTimeoutS
+	Bernstein     bool `json:"bernstein"` // fingerprint type
+}
+
+// Attempts is the configured system_settings.retry_attempts.
+func (c Config) Attempts() int {
+	if c.ZeroAttempts {
+		return 0
+	}
+	if c.RetryAttempts <= 0 {
+		return 1
+	}
+	return c.RetryAttempts
 }
 
 // NodeName is the name of the single database node of the harness.
@@ -115,7 +129,7 @@ func New(cfg Config) *Harness {
 	poolsOnce.Do(func() { service.CreateColPools(100) })
 
 	st := &cfgpkg.ClokiBaseSettingServer{}
-	st.SYSTEM_SETTINGS.RetryAttempts = cfg.RetryAttempts
+	st.SYSTEM_SETTINGS.RetryAttempts = cfg.Attempts()
 	st.SYSTEM_SETTINGS.RetryTimeoutS = cfg.RetryTimeoutS
 	st.SYSTEM_SETTINGS.ChannelsSample = cfg.Workers
 	st.SYSTEM_SETTINGS.ChannelsTimeSeries = cfg.Workers
